@@ -405,163 +405,179 @@ theorem arrive_slot (aw : Await) (lv : Nat) (via : Bool) (e : Err) :
   subst hf
   rfl
 
-/-- the line a finished level shows belongs to that level, unless it let the exception of a synchronously called
-    child pass under the `deepest` rule -/
-theorem step_line (rule : FrameRule) (lv : Nat) (anc : List Frame) (L : Level) (last : Bool) (child : Run)
-    (hL : rule = .own ∨ (L.await == .yld || (match L.handler with | .raiseNew _ | .swallow => true | _ => false)) = true) :
-    (step rule lv anc L last child).lines.map levelTok = lv :: child.lines.map levelTok := by
+theorem agrees_isSome {o : Option Err} {r : Option (Nat × List Frame)} (h : Agrees o r) : o.isSome = r.isSome := by
+  cases o <;> cases r <;> simp_all [Agrees]
+
+/-- the task of a level fails iff the sequential reading says so -/
+theorem run_out_isSome (rule : FrameRule) (bottom : Bottom) (levels : List Level) (lv : Nat) (anc : List Frame) :
+    (run rule bottom lv anc levels).out.isSome = (ref bottom lv levels).isSome :=
+  agrees_isSome (run_agrees rule bottom levels lv anc)
+
+/-- the line a finished level shows: it is put in front of the lines of the levels below, and it belongs to the level
+    itself unless the level let the exception of a synchronously called child pass under the `deepest` rule -/
+theorem step_lines (rule : FrameRule) (lv : Nat) (anc : List Frame) (L : Level) (last : Bool) (child : Run) :
+    ∃ line, (step rule lv anc L last child).lines = line :: child.lines ∧
+      ((rule = .own ∨ L.await = .yld ∨ L.handler.passes = false ∨ child.out = none) → levelTok line = lv) := by
   simp only [step]
   split
-  · simp only [List.map_cons, List.cons.injEq, and_true]
-    exact finish_line rule lv L none (by simp)
-  · rename_i e _
+  · exact ⟨_, rfl, fun _ => finish_line rule lv L none (by simp)⟩
+  · rename_i e hco
     have hslot := arrive_slot L.await lv (!last) e
+    have hpass : ∀ (slot : Option Frame) (e3 : Err), (slot, e3) = ((arrive L.await lv (!last) e).2, (arrive L.await lv (!last) e).1) →
+        L.handler.passes = true →
+        (rule = .own ∨ L.await = .yld ∨ L.handler.passes = false ∨ child.out = none) →
+        levelTok (escape rule slot e3).2 = lv := by
+      intro slot e3 heq hp hL
+      simp only [Prod.mk.injEq] at heq
+      obtain ⟨rfl, rfl⟩ := heq
+      cases ha : L.await with
+      | yld => simp [escape, arrive, levelTok]
+      | sync =>
+        rcases hL with rfl | hL | hL | hL
+        · cases hv : (!last) <;>
+            simp [escape, arrive, unwind, valueRaises, reraise, ownDeepest, levelTok]
+        · simp [ha] at hL
+        · simp [hp] at hL
+        · simp [hco] at hL
     split
     · rename_i hh
-      simp only [List.map_cons, List.cons.injEq, and_true]
-      cases ha : L.await with
-      | yld => simp [escape, arrive, levelTok]
-      | sync =>
-        rcases hL with rfl | hL
-        · cases hv : (!last) <;>
-            simp [escape, arrive, unwind, valueRaises, reraise, ownDeepest, levelTok]
-        · simp [ha, hh] at hL
+      exact ⟨_, rfl, hpass _ _ rfl (by simp [Handler.passes, hh])⟩
     · rename_i hh
-      simp only [List.map_cons, List.cons.injEq, and_true]
-      cases ha : L.await with
-      | yld => simp [escape, arrive, levelTok]
-      | sync =>
-        rcases hL with rfl | hL
-        · cases hv : (!last) <;>
-            simp [escape, arrive, unwind, valueRaises, reraise, ownDeepest, levelTok]
-        · simp [ha, hh] at hL
+      exact ⟨_, rfl, hpass _ _ rfl (by simp [Handler.passes, hh])⟩
     · rename_i hh
-      simp only [List.map_cons, List.cons.injEq, and_true]
-      cases ha : L.await with
-      | yld => simp [escape, arrive, levelTok]
-      | sync =>
-        rcases hL with rfl | hL
-        · cases hv : (!last) <;>
-            simp [escape, arrive, unwind, valueRaises, reraise, ownDeepest, levelTok]
-        · simp [ha, hh] at hL
-    · simp only [List.map_cons, List.cons.injEq, and_true]
-      exact escape_fresh_line rule _ _ lv _ hslot
-    · simp only [List.map_cons, List.cons.injEq, and_true]
-      exact finish_line rule lv L _ hslot
+      exact ⟨_, rfl, hpass _ _ rfl (by simp [Handler.passes, hh])⟩
+    · exact ⟨_, rfl, fun _ => escape_fresh_line rule _ _ lv _ hslot⟩
+    · exact ⟨_, rfl, fun _ => finish_line rule lv L _ hslot⟩
 
-/-- under `syncSafe` (or the repaired frame rule), the line every finished level shows belongs to that level -/
-theorem run_lines (rule : FrameRule) (bottom : Bottom) (levels : List Level)
-    (hsafe : rule = .own ∨ syncSafe levels = true) :
-    ∀ (lv : Nat) (anc : List Frame), (run rule bottom lv anc levels).lines.map levelTok = List.range' lv levels.length := by
+theorem no_orphans (lines : List Frame) (levels : List Level) (h : levels.all (fun M => !M.orphan) = true) :
+    ∀ i, orphanEvents lines i levels = [] ∧ refOrphans i levels = [] := by
   induction levels with
-  | nil => intros; simp [run]
+  | nil => intro i; simp [orphanEvents, refOrphans]
   | cons L rest ih =>
-    intro lv anc
-    have hsafe' : rule = .own ∨ syncSafe rest = true := by
-      rcases hsafe with h | h
-      · exact Or.inl h
-      · simp only [syncSafe, List.all_cons, Bool.and_eq_true] at h
-        exact Or.inr (by simpa [syncSafe] using h.2)
-    have hL : rule = .own ∨ (L.await == .yld || (match L.handler with | .raiseNew _ | .swallow => true | _ => false)) = true := by
-      rcases hsafe with h | h
-      · exact Or.inl h
-      · simp only [syncSafe, List.all_cons, Bool.and_eq_true] at h
-        exact Or.inr h.1
-    have ih' := ih hsafe' (lv + 1) (anc ++ [.task lv])
-    have hstep := step_line rule lv anc L rest.isEmpty (run rule bottom (lv + 1) (anc ++ [.task lv]) rest) hL
-    rw [ih'] at hstep
-    cases rest with
-    | nil =>
-      cases bottom with
-      | hook r h => simp [run, hookRun, levelTok, List.range'_succ]
-      | none => simpa only [run, List.length_cons, List.range'_succ] using hstep
-      | errFuture => simpa only [run, List.length_cons, List.range'_succ] using hstep
-    | cons L' rest' => simpa only [run, List.length_cons, List.range'_succ] using hstep
+    intro i
+    simp only [List.all_cons, Bool.and_eq_true, Bool.not_eq_true'] at h
+    have := ih (by simpa using h.2) (i + 1)
+    simp [orphanEvents, refOrphans, h.1, this]
 
+/-- **the stacks the orphans get are the reference ones** when no orphan is created at or below a level that was left
+    with a foreign `_frame` (`stackSafe`), or under the repaired frame rule -/
+theorem run_orphans (rule : FrameRule) (bottom : Bottom) (levels : List Level) :
+    ∀ (lv : Nat) (anc pre : List Frame), pre.length = lv → pre.map levelTok = List.range lv →
+      (rule = .own ∨ stackSafe bottom lv levels = true) →
+      orphanEvents (pre ++ (run rule bottom lv anc levels).lines) lv levels = refOrphans lv levels := by
+  induction levels with
+  | nil => intros; simp [orphanEvents, refOrphans]
+  | cons L rest ih =>
+    intro lv anc pre hlen hpre hsafe
+    -- the run of this level: its line in front of the lines of the levels below
+    have hlines : ∃ line, (run rule bottom lv anc (L :: rest)).lines =
+          line :: (match rest, bottom with
+            | [], .hook _ _ => []
+            | _, _ => (run rule bottom (lv + 1) (anc ++ [.task lv]) rest).lines) ∧
+        ((rule = .own ∨ unsafeHere bottom lv L rest = false) → levelTok line = lv) := by
+      have hstep := step_lines rule lv anc L rest.isEmpty (run rule bottom (lv + 1) (anc ++ [.task lv]) rest)
+      have hconv : (rule = .own ∨ unsafeHere bottom lv L rest = false) →
+          (rule = .own ∨ L.await = .yld ∨ L.handler.passes = false ∨
+            (run rule bottom (lv + 1) (anc ++ [.task lv]) rest).out = none) := by
+        rintro (h | h)
+        · exact Or.inl h
+        · right
+          have hs := run_out_isSome rule bottom rest (lv + 1) (anc ++ [.task lv])
+          simp only [unsafeHere, Bool.and_eq_false_iff, beq_eq_false_iff_ne, ne_eq] at h
+          rcases h with (h | h) | h
+          · left; cases ha : L.await <;> simp_all
+          · right; left; simpa using h
+          · right; right
+            rw [← hs] at h
+            cases ho : (run rule bottom (lv + 1) (anc ++ [.task lv]) rest).out <;> simp_all
+      cases rest with
+      | nil =>
+        cases bottom with
+        | hook r h => exact ⟨.task lv, by simp [run, hookRun], fun _ => rfl⟩
+        | none =>
+          obtain ⟨line, h1, h2⟩ := hstep
+          exact ⟨line, by simpa only [run] using h1, fun h => h2 (hconv h)⟩
+        | errFuture =>
+          obtain ⟨line, h1, h2⟩ := hstep
+          exact ⟨line, by simpa only [run] using h1, fun h => h2 (hconv h)⟩
+      | cons L' rest' =>
+        obtain ⟨line, h1, h2⟩ := hstep
+        exact ⟨line, by simpa only [run] using h1, fun h => h2 (hconv h)⟩
+    obtain ⟨line, hl, hline⟩ := hlines
+    by_cases hu : rule = .own ∨ unsafeHere bottom lv L rest = false
+    · -- this level shows its own line: go on below it
+      have hsafe' : rule = .own ∨ stackSafe bottom (lv + 1) rest = true := by
+        rcases hsafe with h | h
+        · exact Or.inl h
+        · rcases hu with hu | hu
+          · exact Or.inl hu
+          · simp only [stackSafe, hu, Bool.false_eq_true, if_false] at h
+            exact Or.inr h
+      have hl' := hline hu
+      have hpre' : (pre ++ [line]).map levelTok = List.range (lv + 1) := by
+        simp [hpre, hl', List.range_succ]
+      have hrec : orphanEvents (pre ++ line :: (run rule bottom (lv + 1) (anc ++ [.task lv]) rest).lines) (lv + 1) rest =
+          refOrphans (lv + 1) rest := by
+        have := ih (lv + 1) (anc ++ [.task lv]) (pre ++ [line]) (by simp [hlen]) hpre' hsafe'
+        simpa using this
+      have htail : orphanEvents (pre ++ (run rule bottom lv anc (L :: rest)).lines) (lv + 1) rest = refOrphans (lv + 1) rest := by
+        rw [hl]
+        cases rest with
+        | nil => simp [orphanEvents, refOrphans]
+        | cons L' rest' => simpa using hrec
+      have htake : ((pre ++ (run rule bottom lv anc (L :: rest)).lines).take (lv + 1)).map levelTok = List.range (lv + 1) := by
+        rw [hl, List.take_append, List.take_of_length_le (by omega)]
+        simp [hlen, hpre, hl', List.range_succ]
+      simp only [orphanEvents, refOrphans, htail]
+      split
+      · simp [htake, levelTok]
+      · rfl
+    · -- a foreign `_frame` from here on: nobody asks
+      have hu' : unsafeHere bottom lv L rest = true := by
+        cases h : unsafeHere bottom lv L rest
+        · exact absurd (Or.inr h) hu
+        · rfl
+      have hr : rule ≠ .own := fun h => hu (Or.inl h)
+      rcases hsafe with h | h
+      · exact absurd h hr
+      · simp only [stackSafe, hu', if_true] at h
+        have := no_orphans (pre ++ (run rule bottom lv anc (L :: rest)).lines) (L :: rest) h lv
+        rw [this.1, this.2]
+
+/-- the `format_asynq_stack()` answers recorded by one level -/
 theorem step_events (rule : FrameRule) (lv : Nat) (anc : List Frame) (L : Level) (last : Bool) (child : Run)
-    (hanc : anc.map levelTok = List.range lv)
-    (P : Event → Prop) (hP : ∀ k, (k = StackKind.start ∨ k = .handler) → P (.stack k lv (List.range (lv + 1))))
-    (hc : ∀ ev ∈ child.events, P ev) :
-    ∀ ev ∈ (step rule lv anc L last child).events, P ev := by
-  intro ev hev
+    (hanc : anc.map levelTok = List.range lv) :
+    (step rule lv anc L last child).events =
+      .stack .start lv (List.range (lv + 1)) :: child.events ++
+        (if child.out.isSome && L.handler != .pass then [.stack .handler lv (List.range (lv + 1))] else []) := by
   have hhere : (anc ++ [Frame.task lv]).map levelTok = List.range (lv + 1) := by
     simp [hanc, List.range_succ, levelTok]
-  simp only [step, hhere] at hev
-  split at hev
-  · simp only [List.mem_cons] at hev
-    rcases hev with rfl | hev
-    · exact hP _ (Or.inl rfl)
-    · exact hc ev hev
-  · split at hev <;>
-      (simp only [List.mem_cons, List.mem_append, List.not_mem_nil, or_false, or_assoc] at hev
-       rcases hev with rfl | hev
-       · exact hP _ (Or.inl rfl)
-       · first
-         | exact hc ev hev
-         | (rcases hev with hev | rfl
-            · exact hc ev hev
-            · exact hP _ (Or.inr rfl)))
+  simp only [step, hhere]
+  split
+  · rename_i h; simp [h]
+  · rename_i e h
+    split <;> rename_i hh <;> simp [h, hh]
 
-/-- every event recorded inside the bodies is a stack of the expected levels -/
+/-- **the stacks asked for inside the bodies are exactly the reference ones**: which levels ask (every level when it
+    starts; in its handler iff the level below failed), in which order, and what they are told -/
 theorem run_events (rule : FrameRule) (bottom : Bottom) (levels : List Level) :
     ∀ (lv : Nat) (anc : List Frame), anc.map levelTok = List.range lv →
-      ∀ ev ∈ (run rule bottom lv anc levels).events, ∃ k lv', (k = .start ∨ k = .handler) ∧ ev = .stack k lv' (List.range (lv' + 1)) := by
+      (run rule bottom lv anc levels).events = refEvents bottom lv levels := by
   induction levels with
-  | nil => intro lv anc _ ev hev; simp [run] at hev
+  | nil => intros; simp [run, refEvents]
   | cons L rest ih =>
     intro lv anc hanc
     have hhere : (anc ++ [Frame.task lv]).map levelTok = List.range (lv + 1) := by
       simp [hanc, List.range_succ, levelTok]
     have ihc := ih (lv + 1) (anc ++ [.task lv]) hhere
     have hstep := step_events rule lv anc L rest.isEmpty (run rule bottom (lv + 1) (anc ++ [.task lv]) rest) hanc
-      (fun ev => ∃ k lv', (k = StackKind.start ∨ k = .handler) ∧ ev = .stack k lv' (List.range (lv' + 1)))
-      (fun k hk => ⟨k, lv, hk, rfl⟩) ihc
+    rw [ihc, run_out_isSome] at hstep
     cases rest with
     | nil =>
       cases bottom with
-      | hook r h =>
-        intro ev hev
-        simp only [run, hookRun, hhere, List.mem_singleton] at hev
-        exact ⟨.start, lv, Or.inl rfl, hev⟩
-      | none => simpa only [run] using hstep
-      | errFuture => simpa only [run] using hstep
-    | cons L' rest' => simpa only [run] using hstep
-
-theorem orphanEvents_spec (lines : List Frame) (total : Nat) (hl : lines.map levelTok = List.range total) :
-    ∀ (rest : List Level) (i : Nat), i + rest.length = total →
-      ∀ ev ∈ orphanEvents lines i rest, ∃ j, ev = .stack .orphan j (List.range (j + 1) ++ [1000 + j]) := by
-  intro rest
-  induction rest with
-  | nil => intro i _ ev hev; simp [orphanEvents] at hev
-  | cons L rest ih =>
-    intro i hi ev hev
-    simp only [List.length_cons] at hi
-    have ih' := ih (i + 1) (by omega)
-    simp only [orphanEvents] at hev
-    split at hev
-    · simp only [List.mem_cons] at hev
-      rcases hev with rfl | hev
-      · refine ⟨i, ?_⟩
-        have : (lines.take (i + 1)).map levelTok = List.range (i + 1) := by
-          rw [List.map_take, hl, List.take_range]
-          congr 1
-          omega
-        simp [this, levelTok]
-      · exact ih' ev hev
-    · exact ih' ev hev
-
-theorem orphanEvents_not_result (lines : List Frame) (rest : List Level) (i : Nat) :
-    ∀ ev ∈ orphanEvents lines i rest, ∃ j ls, ev = .stack .orphan j ls := by
-  induction rest generalizing i with
-  | nil => intro ev hev; simp [orphanEvents] at hev
-  | cons L rest ih =>
-    intro ev hev
-    simp only [orphanEvents] at hev
-    split at hev
-    · simp only [List.mem_cons] at hev
-      rcases hev with rfl | hev
-      · exact ⟨_, _, rfl⟩
-      · exact ih _ ev hev
-    · exact ih _ ev hev
+      | hook r h => simp [run, hookRun, refEvents, hhere]
+      | none => simpa only [run, refEvents] using hstep
+      | errFuture => simpa only [run, refEvents] using hstep
+    | cons L' rest' => simpa only [run, refEvents] using hstep
 
 end AsynqModel.Debug
